@@ -550,3 +550,28 @@ def model_get(pid):
                       UID(v.st.content(v.local('idx')).arr[KQ]) >= 0, UID(v.st.content(v.local('idx')).arr[KQ]) < S))))],
         calls={'self.idx2uid': idx2uid},
         ensures=[('result[j]=self.src.attr[uid(idx[j])]', post)], modifies=[])
+
+
+
+def set_arrays_inplace(pid):
+    """BaseVar._set_arrays_inplace: for a variable with contiguous addresses (v_inplace / e_inplace), v and e become the stretch of
+    the DAE array that starts at a[0] and has exactly one entry per device: element k is dae.<code>[a[k]]."""
+    N = fresh('N', I)
+
+    def post(old, new, res):
+        a = old.arr('self.a')
+        k = fresh('k', I)
+        cl = []
+        for arr_name, code in (('self.v', 'x'), ('self.e', 'f')):
+            got, src = new.arr(arr_name), old.arr('dae.' + code)
+            cl.append(z3.And(got.n == N, z3.ForAll([k], z3.Implies(z3.And(k >= 0, k < N), got.vals[k] == src.vals[z3.ToInt(a.vals[k])]))))
+        return z3.And(*cl)
+    c = Contract(FV, 'BaseVar._set_arrays_inplace', pid=pid, params={'self': TObj(), 'dae': TObj()},
+                 schema={'self.a': TArr(n=N, kind='int'), 'self.v_inplace': TConst(True), 'self.e_inplace': TConst(True), 'self.v_code': TConst('x'),
+                         'self.e_code': TConst('f'), 'dae.x': TArr(), 'dae.f': TArr(), 'self.v': TArr(), 'self.e': TArr()},
+                 requires=[('contiguous-addresses-inside-the-dae-arrays(set_address:contiguous)', lambda v: z3.And(
+                     N >= 1, v.arr('self.a').vals[0] >= 0, z3.ToInt(v.arr('self.a').vals[0]) + N <= v.arr('dae.x').n,
+                     z3.ToInt(v.arr('self.a').vals[0]) + N <= v.arr('dae.f').n,
+                     z3.ForAll([KQ], z3.Implies(z3.And(KQ >= 0, KQ < N), v.arr('self.a').vals[KQ] == v.arr('self.a').vals[0] + KQ))))],
+                 ensures=[('v[k]=dae.x[a[k]],e[k]=dae.f[a[k]],one-entry-per-device', post)], modifies=['self.v', 'self.e'])
+    return c
